@@ -235,10 +235,18 @@ fn main() {
                 }
                 eligible_worlds += 1;
                 for (ci, cfg) in all_cfgs.iter().enumerate() {
-                    // quick (and the per-position name worlds in thorough): default/utf8 plus two
-                    // of the other seven, rotating with the world index; otherwise all eight
+                    // quick: default/utf8 plus one of the other seven (rotating with the world
+                    // index); per-position name worlds in thorough: plus two; otherwise all eight
                     let per_position = case.family == "names" && !case.id.ends_with(":all");
-                    if (!thorough || per_position) && ci != 0 && ci != 1 + (i % 7) && ci != 1 + ((i + 3) % 7) {
+                    let keep = if !thorough {
+                        // quick: default/utf8 + one rotating configuration
+                        ci == 0 || ci == 1 + (i % 7)
+                    } else if per_position {
+                        ci == 0 || ci == 1 + (i % 7) || ci == 1 + ((i + 3) % 7)
+                    } else {
+                        true
+                    };
+                    if !keep {
                         continue;
                     }
                     if cfg.async_all && f.nested_future_or_stream {
@@ -329,6 +337,10 @@ fn main() {
                 async_class_only += 1;
                 *outcomes.entry("async=all rejected on sync-typed function (class)".into()).or_default() += 1;
             }
+            "fail" if r["stage"] == "machinery" => {
+                scratch.remove();
+                vcommon::machinery(&format!("{} [{}]: {}", cases[*i].id, r["config"].as_str().unwrap_or(""), r["msg"].as_str().unwrap_or("")));
+            }
             "fail" => {
                 let stage = r["stage"].as_str().unwrap_or("?").to_string();
                 let msg = r["msg"].as_str().unwrap_or("").to_string();
@@ -394,7 +406,7 @@ fn main() {
             "type_families": worlds::type_families(false, false).iter().map(|f| json!({"family": f.0, "types": f.2.len()})).collect::<Vec<_>>(),
             "configurations": all_cfgs.iter().map(|c| c.name()).collect::<Vec<_>>(),
             "corpus_step": corpus_step,
-            "configurations_per_world": if thorough { "all 8 (per-position name worlds: default/utf8 + 2 rotating)" } else { "default/utf8 + 2 rotating" },
+            "configurations_per_world": if thorough { "all 8 (per-position name worlds: default/utf8 + 2 rotating)" } else { "default/utf8 + 1 rotating" },
         },
         "ok": ok,
         "ok_on_derived_async_typed_world": derived_ok,
